@@ -48,6 +48,7 @@ def parseOp : List String → Option Op
   | [_, "wait", b] => do pure (.wait (← b.toNat?))
   | [_, "drophandle", t] => do pure (.dropHandle (← t.toNat?))
   | [_, "dropbarrier", b] => do pure (.dropBarrier (← b.toNat?))
+  | [_, "abandon", t] => do pure (.abandon (← t.toNat?))
   | _ => none
 
 def showRes : Res → String
@@ -72,6 +73,7 @@ structure OState where
   opsRev : List Op := []
   gots : List (Nat × Nat) := []          -- (barrier, tid) in observation order
   handles : List Nat := []               -- tids whose handle the test currently holds (observed `got`, not dropped)
+  abandoned : List Nat := []             -- calls whose parked future was dropped
 
 def gotCount (o : OState) (b : Nat) : Nat := (o.gots.filter (·.1 == b)).length
 
@@ -171,15 +173,20 @@ def runCase (c : Case) : Verdict := Id.run do
             oracleErr := some s!"wait {b}: nothing left to report (all {k} reports delivered) but implementation [{obsRes}]"
       if !obsResumed.isEmpty then oracleErr := some s!"wait resumed triggers {showNatList obsResumed}"
     | .dropHandle t =>
-      let exp := if o.handles.contains t && specSuspended trs t then [t] else []
+      let exp := if o.handles.contains t && specSuspended trs t && !o.abandoned.contains t then [t] else []
       o := { o with handles := o.handles.filter (· != t) }
       if obsResumed != exp then
         oracleErr := some s!"drop of handle {t}: must resume {showNatList exp}, implementation resumed {showNatList obsResumed}"
+    | .abandon t =>
+      if obsRes != "ok" then oracleErr := some s!"abandon: implementation [{obsRes}]"
+      if !obsResumed.isEmpty then oracleErr := some s!"abandoning call {t} resumed {showNatList obsResumed}"
+      o := { o with abandoned := t :: o.abandoned }
+      v := { v with cov := addCov v.cov "abandon" }
     | .dropBarrier b =>
       let liveB := sp.live.any (·.id == b)
       let spec := specReports b spec0 ops
       let undelivered := (spec.drop (gotCount o b)).map (·.1)
-      let exp := if liveB then sortNat (undelivered.filter (specSuspended trs)) else []
+      let exp := if liveB then sortNat (undelivered.filter (fun t => specSuspended trs t && !o.abandoned.contains t)) else []
       if obsResumed != exp then
         oracleErr := some s!"drop of barrier {b}: must resume {showNatList exp}, implementation resumed {showNatList obsResumed}"
     if let some e := oracleErr then
